@@ -2,15 +2,21 @@
 import sup
 
 RULE = ("cases are a deterministic function of (tier, seed, index). 3 coordinate cases enumerate all 64x64 tiles (clauses corner / centre / range). "
-        "WDT: one case = one map definition = version (Classic..BfA) x grid shape (empty, full, each corner alone, diagonal, asymmetric L, random 1 % / 50 %) x "
+        "WDT: one case = one map definition = version (Classic..Dragonflight, 10) x grid shape (empty, full, each corner alone, diagonal, asymmetric L, random 1 % / 50 %) x "
         "map type (terrain / WMO-only with MWMO name + MODF placement) x MAID (BfA; its root-ADT ids either name exactly the present tiles, only some of them, none at all "
         "- the all-zero table convert_wdt itself creates - or some absent tiles as well) x MPHD flags/fields; pass 0 = terrain maps as the version's format has them, "
         "pass 1 = WMO-only maps, further passes = random variants. Per case: write, independent chunk walk (MAIN/MAID grid order, MPHD flag word, chunk presence), "
-        "parse, field-wise and PartialEq comparison with the harness's own model, second write byte-identical, convert_wdt to all 8 versions (MAIN equal in memory and "
-        "after write->parse), and on top of each of those results a second convert_wdt to all 8 versions (chains v->t->u; MAIN equal in memory, and after write->parse for the "
-        "way back v->t->v). WDL: version (Vanilla..Legion) x grid shape x holes (none/half/all tiles) x model chunks (MWMO/MWID/MODF or ML**); write from two "
+        "parse, field-wise and PartialEq comparison with the harness's own model, second write byte-identical, convert_wdt to all 10 versions (MAIN equal in memory and "
+        "after write->parse), and on top of each of those results a second convert_wdt to all 10 versions (chains v->t->u; MAIN equal in memory, and after write->parse for the "
+        "way back v->t->v). Every map is also built a second time through the setter entry points (MainEntry::set_has_adt, MphdChunk::set_file_data_ids) and must be the same "
+        "object; the parsed file's accessor views (is_wmo_only, get_tile, count_existing_tiles, MaidChunk::has_tile / get_root_adt_ids) are compared with the model grid; the map is "
+        "written into a stream after 1..4096 foreign bytes and read back from that position; maps with file ids are also taken through clear_file_data_ids (round trip of the "
+        "map without its id table, ids put back through the setter). WDL: version (Vanilla..Dragonflight and Latest, 10; Latest is built with WdlFile::new()) x grid shape x holes (none/half/all tiles) x model chunks (MWMO/MWID/MODF or ML**); write from two "
         "independently built objects, MAOF resolved by the walker, parse by two fresh versioned parsers and the default parser, projection compared as sorted maps, "
-        "second write from each parsed instance, convert_wdl_file to all 6 versions. distinct = distinct (format, version, grid, optional-chunk configuration) classes; "
+        "second write from each parsed instance, convert_wdl_file to all 10 versions. Holes of one of the two builds are set cell by cell through HolesData::set_hole (from new(), "
+        "from all_holes(), or every cell first the wrong way round) and HolesData::has_hole is compared with the model grid for every cell before and after the round trip; one "
+        "parser object is carried from version to version with set_version and must write and parse like a fresh with_version parser (source file and every converted file); the file "
+        "is written into a stream after 1..70000 foreign bytes and must come back either as a file of its own or by a parse started at that position. distinct = distinct (format, version, grid, optional-chunk configuration) classes; "
         "every case writes and parses at least one file, so every executed case is non-trivial.")
 ASSUME = [
     "version_config / WdlFile.version guessed by the reader is not content (it is not stored in the file); it is counted, not compared (WDL: compared only for the versioned parser)",
@@ -22,6 +28,12 @@ ASSUME = [
     "MAID cannot exist before BfA, so its removal/creation by convert_wdt is not compared",
     "the file-id table and MAIN are independent content: a BfA map whose MAID root ids do not mirror MAIN's presence bits is a valid map definition (the converter's own upgrade "
     "produces one), and MAIN is the tile data a conversion must keep",
+    "WDL version Latest is the auto-detecting parser: the version label it puts on a parsed file (Latest, or Legion when ML** chunks are present) is counted, not compared",
+    "a WDL file written at a non-zero stream position: MAOF offsets may count from the start of the written bytes or from the start of the stream; the API does not say which, "
+    "so either way of getting the content back satisfies the check (observed: they count from the start of the written bytes, so only the bytes taken as a file of their own parse)",
+    "WDT get_tile: coordinates, flags and area id are compared; its has_adt (MAID over MAIN) is the library's reading and is not compared. HolesData mask layout (word y, bit x, "
+    "cleared bit = hole) is the one the library documents for hole_masks",
+    "a BfA+ map without file-id table (after clear_file_data_ids) is a valid definition of those versions (8.0 wrote such files)",
     "clause 'range' (world_to_tile stays inside 0..63 for points up to the map's outermost edge) is the harness's reading of 'returns the same tile' for the last row/column",
 ]
 
